@@ -28,8 +28,55 @@ impl std::fmt::Debug for Value {
     }
 }
 
+/// Compares an integer with a real by their exact numeric values. Converting the integer to
+/// f64 first would round it beyond 2^53.
+fn cmp_int_real(i: i64, r: f64) -> Option<std::cmp::Ordering> {
+    use std::cmp::Ordering;
+    if r.is_nan() {
+        return None;
+    }
+    // 2^63: every i64 is below, -2^63 is the smallest i64
+    if r >= 9223372036854775808.0 {
+        return Some(Ordering::Less);
+    }
+    if r < -9223372036854775808.0 {
+        return Some(Ordering::Greater);
+    }
+    let whole = r.trunc();
+    // |whole| < 2^63 (or whole == -2^63), so the conversion is exact
+    let res = match i.cmp(&(whole as i64)) {
+        Ordering::Equal => {
+            let frac = r - whole;
+            if frac > 0.0 {
+                Ordering::Less
+            } else if frac < 0.0 {
+                Ordering::Greater
+            } else {
+                Ordering::Equal
+            }
+        }
+        ord => ord,
+    };
+    Some(res)
+}
+
 impl PartialOrd for Value {
     fn partial_cmp(&self, other: &Self) -> Option<std::cmp::Ordering> {
+        // an integer (or something that counts as one) against a real: compare exactly
+        match (*self, *other) {
+            (Value::Real(_), Value::Real(_)) => {}
+            (Value::Real(r), lhs_other) => {
+                if let Ok(i) = i64::try_from(lhs_other) {
+                    return cmp_int_real(i, r).map(|o| o.reverse());
+                }
+            }
+            (lhs, Value::Real(r)) => {
+                if let Ok(i) = i64::try_from(lhs) {
+                    return cmp_int_real(i, r);
+                }
+            }
+            _ => {}
+        }
         let (this, other) = self.try_cast_match(*other);
         match (this, other) {
             (Value::Object(a), Value::Object(b)) => unsafe { a.as_ref().partial_cmp(b.as_ref()) },
